@@ -85,7 +85,22 @@ func ZZVerifC05Roundtrip() {
 	secret := nd.BytesUpTo("secret", 1)
 	salt := nd.BytesUpTo("salt", 1)
 	hostOnly := nd.Choose("hostonly", 2) == 1
-	enc := zzEnc(base, secret, salt, hostOnly, c)
+	// the settings are handed over in caller-owned buffers (with spare
+	// capacity); the caller then reuses the secret buffer for a filespace with
+	// another salt and finally wipes both buffers: the filespace keeps the
+	// secret and salt it was built with
+	secretBuf := make([]byte, len(secret), len(secret)+8)
+	copy(secretBuf, secret)
+	saltBuf := append([]byte{}, salt...)
+	enc := zzEnc(base, secretBuf, saltBuf, hostOnly, c)
+	otherBase, _ := memfs.NewFilespace()
+	zzEnc(otherBase, secretBuf, []byte("other salt"), hostOnly, c)
+	for i := range secretBuf {
+		secretBuf[i] ^= 0xff
+	}
+	for i := range saltBuf {
+		saltBuf[i] ^= 0xff
+	}
 	pt := nd.BytesUpTo("pt", nd.Param("P", 2))
 	wstream := nd.Choose("wstream", 2) == 1
 	rstream := nd.Choose("rstream", 2) == 1
